@@ -201,7 +201,7 @@ func (w *World) nameTestByInterp(r *Report, fac, pred *ssa.Function) bool {
 	for _, nt := range nodeTypes {
 		for _, local := range []string{"a", "b"} {
 			for _, prefix := range []string{"", "p", "q"} {
-				for _, uri := range []string{"urn:x", "urn:y"} {
+				for _, uri := range []string{"urn:x", "urn:y", ""} {
 					nodes = append(nodes, ntNode{nt, local, prefix, uri})
 				}
 			}
